@@ -161,15 +161,15 @@ Proof. exact parse_archs_skel_returns. Qed.
 Print Assumptions c15_no_panic_parse_archs.
 
 (* the index / slice expressions and length guards of the transcribed functions, as the
-   source has them today (names of locals erased): an edit that adds, removes or changes one
+   source has them today (names of locals erased, each list sorted): an edit that adds, removes or changes one
    makes this statement false, and the search for a failing input starts *)
 Theorem c15_sites_pinned :
-  (repo_line_sites, repo_line_len_guards) = (["_[0][1:]"; "_[0]"; "_[1]"], ["len(_) < 2"])%string /\
-  (unify_sites, unify_trim_suffix_calls) = (["_[:_]"; "_[_:]"; "_[_:]"; "_[0]"; "_[0]"; "_[0]"; "_[1:]"], 2%nat)%string /\
-  (lock_provides_sites, lock_provides_len_guards) = (["_[0]"; "_[0][1]"; "_[0]"], ["len(_) == 0"; "len(_[0]) < 2"])%string /\
+  (repo_line_sites, repo_line_len_guards) = (["_[0]"; "_[0][1:]"; "_[1]"], ["len(_) < 2"])%string /\
+  (unify_sites, unify_trim_suffix_calls) = (["_[0]"; "_[0]"; "_[0]"; "_[1:]"; "_[:_]"; "_[_:]"; "_[_:]"], 2%nat)%string /\
+  (lock_provides_sites, lock_provides_len_guards) = (["_[0]"; "_[0]"; "_[0][1]"], ["len(_) == 0"; "len(_[0]) < 2"])%string /\
   (pkginfo_sites, pkginfo_len_guards, split_appends) = (["_[0]"; "_[1]"], ["len(_) == 3"], (2, 1)%nat)%string /\
   (perms_sites, perms_len_guards) = (["_[0]"; "_[1]"; "_[2]"], ["len(_) != 3"])%string /\
-  (repo_index_sites, repo_index_len_guards) = (["_[2]"; "_[1]"; "_[_:]"], ["len(_) == 0"; "len(_) != 3"; "len(_) == 0"])%string /\
+  (repo_index_sites, repo_index_len_guards) = (["_[1]"; "_[2]"; "_[_:]"], ["len(_) != 3"; "len(_) == 0"; "len(_) == 0"])%string /\
   (parse_archs_sites, parse_archs_len_guards) = (["_[0]"; "_[0]"; "_[0]"], ["len(_) == 1"; "len(_) == 1"])%string /\
   (release_sites, release_len_guards, release_sets_scanner_buffer) = ([], [], false) /\
   (expand_signed_cond, expand_sig_index_guarded, expand_max_streams, expand_sign_prefix) = ("sig >= 0", (3, 0)%nat, (2, 3)%nat, ".SIGN.")%string.
